@@ -140,6 +140,8 @@ pub struct Task {
     pub retired: bool,
     /// operator channels attached to this emission
     pub attached: BTreeSet<u64>,
+    /// number of `refs_at` entries of the emitted fetch (0 = a full fetch)
+    pub nrefs: usize,
 }
 
 #[derive(Clone, Debug, PartialEq, Eq, PartialOrd, Ord)]
@@ -202,6 +204,9 @@ pub struct Sim<'a> {
     pub c16_tainted: bool,
     /// (node, rid, current task, stale task): a stale result was just delivered; an Io::Fetch for rid in the same drain proves the current entry was removed
     pub stale_watch: Option<(usize, RepoId, u64, u64)>,
+    /// Set while the Io of a `fetched()` call is drained whose repository had no fetch entry in the
+    /// service before the call (node, task id): such a result belongs to no fetch and must have no effect.
+    pub orphan_result: Option<(usize, u64)>,
 }
 
 pub const T0: u64 = 1_700_000_000_000;
